@@ -17,12 +17,26 @@ func merge(e Event, extra Event) Event {
 
 // recByEntropy calls NewMnemonicByEntropy and records the call.
 func recByEntropy(ent []byte, lang int64, extra Event) (out string, err error) {
-	before := append([]byte(nil), ent...)
-	o := guarded(func() { out, err = bip39.NewMnemonicByEntropy(ent, bip39.Language(lang)) })
-	e := Event{"op": "ByEntropy", "ent_len": len(before), "ent_nil": ent == nil, "lang": langField(lang),
-		"out": units(out), "err": errRec(err), "ent_same": bytes.Equal(before, ent)}
-	if len(before) <= 64 {
-		e["ent"] = ints(before)
+	// The argument is handed over as callers often hold it: a prefix of a larger buffer (spare capacity
+	// behind it).  "ent_same" covers the whole backing array, not only the first len bytes.
+	var backing, arg []byte
+	if ent != nil {
+		backing = make([]byte, len(ent)+24)
+		copy(backing, ent)
+		for i := len(ent); i < len(backing); i++ {
+			backing[i] = byte(0xA5 ^ i)
+		}
+		arg = backing[:len(ent)]
+		if len(ent)%8 == 4 { // some calls with an exact-capacity slice
+			arg = backing[:len(ent):len(ent)]
+		}
+	}
+	before := append([]byte(nil), backing...)
+	o := guarded(func() { out, err = bip39.NewMnemonicByEntropy(arg, bip39.Language(lang)) })
+	e := Event{"op": "ByEntropy", "ent_len": len(ent), "ent_nil": ent == nil, "lang": langField(lang),
+		"out": units(out), "err": errRec(err), "ent_same": bytes.Equal(before, backing), "spare": cap(arg) - len(arg)}
+	if len(ent) <= 64 {
+		e["ent"] = ints(before[:len(ent)])
 	} else {
 		e["ent"] = []int{}
 	}
